@@ -104,14 +104,15 @@ def _exact(view, project, ids, custom):
     return problems
 
 
-def _set_workspace(project, mask, bad):
-    want = {signac.job.calc_id(U[i]) for i in range(6) if mask >> i & 1}
+def _set_workspace(project, mask, bad, U=None):
+    U = U or globals()["U"]
+    want = {signac.job.calc_id(U[i]) for i in range(len(U)) if mask >> i & 1}
     bad_sps = [BAD[i] for i in range(2) if bad >> i & 1]
     want |= {signac.job.calc_id(sp) for sp in bad_sps}
     for job in list(project):
         if job.id not in want:
             job.remove()
-    for i in range(6):
+    for i in range(len(U)):
         if mask >> i & 1:
             j = project.open_job(U[i]).init()
             with open(j.fn("data"), "w") as f:
@@ -120,7 +121,7 @@ def _set_workspace(project, mask, bad):
         project.open_job(sp).init()
 
 
-def _case(m1, m2, bad2, sel, custom):
+def _case(m1, m2, bad2, sel, custom, U=None):
     with SL.Scratch() as sc:
         project = signac.init_project(os.path.join(sc.root, "p"))
         view = os.path.join(sc.root, "view")
@@ -130,28 +131,33 @@ def _case(m1, m2, bad2, sel, custom):
 
         def ids():
             all_ = sorted(j.id for j in project)
+            if sel == 2:
+                return []          # an empty selection: a view without links
             return all_[1:] if (sel and len(all_) > 1) else all_
 
         def make(prefix):
             kw = dict(prefix=prefix, path=path)
             if sel:
                 kw["job_ids"] = ids()
+            ws_before = SL.snap(project.workspace)
             try:
                 project.create_linked_view(**kw)
+                if SL.snap(project.workspace) != ws_before:
+                    problems.append(("creating the view altered the workspace (job directories)", sorted(set(SL.snap(project.workspace)) ^ set(ws_before))[:3]))
                 return "ok"
             except RuntimeError as e:
                 return "RuntimeError"
             except Exception as e:  # noqa
                 return ("error", type(e).__name__, str(e)[:120])
 
-        _set_workspace(project, m1, 0)
+        _set_workspace(project, m1, 0, U)
         r1 = make(view)
         if r1 == "ok":
             problems += [("first view",) + p for p in _exact(view, project, ids(), custom)]
         elif r1 != "RuntimeError":
             problems.append(("first view raised", r1))
         before = _walk(view)
-        _set_workspace(project, m2, bad2)
+        _set_workspace(project, m2, bad2, U)
         r2 = make(view)
         rf = make(scratch_view)
         if r2 != rf:
@@ -169,11 +175,21 @@ def _case(m1, m2, bad2, sel, custom):
         elif r2 == "RuntimeError":
             if _walk(view) != before:
                 problems.append(("rejected input altered the existing view",))
-            if not bad2 and not custom and _homogeneous(project, ids()):
+            if not bad2 and not custom and _homogeneous(project, ids()) and not _unrepresentable(project, ids()):
                 problems.append(("representable homogeneous input was rejected",))
         else:
             problems.append(("second view raised", r2))
         return problems
+
+
+def _unrepresentable(project, ids):
+    """a key or value that is no directory name: contains the separator, or is '.' / '..'"""
+    for i in ids:
+        for k, v in _flat(project.open_job(id=i).statepoint()).items():
+            for x in (k, v):
+                if isinstance(x, str) and (os.sep in x or x in (".", "..")):
+                    return True
+    return False
 
 
 def _homogeneous(project, ids):
@@ -181,11 +197,12 @@ def _homogeneous(project, ids):
     return len(set(keys)) <= 1
 
 
-def h_view(m1: int, m2: int, bad2: int, sel: bool, custom: bool):
-    assert 0 <= m1 < 64 and 0 <= m2 < 64 and 0 <= bad2 <= 2 and part_ok(m2)
+def h_view(m1: int, m2: int, bad2: int, sel: int, custom: bool):
+    assert 0 <= m1 < 64 and 0 <= m2 < 64 and 0 <= bad2 <= 2 and 0 <= sel <= 2 and part_ok(m2)
     assert tier() != "quick" or (m1 in (0, 3, 15, 21, 48, 63) and bad2 <= 1)
+    assert sel != 2 or (not custom and bad2 == 0 and m1 in (0, 3, 63))
     fresh_path()
-    m1, m2, bad2, sel, custom = ci(m1, 0, 63), ci(m2, 0, 63), ci(bad2, 0, 2), cb(sel), cb(custom)
+    m1, m2, bad2, sel, custom = ci(m1, 0, 63), ci(m2, 0, 63), ci(bad2, 0, 2), ci(sel, 0, 2), cb(custom)
     with nt():
         problems = _case(m1, m2, bad2, sel, custom)
     reached()
@@ -212,6 +229,22 @@ def h_view__reach(m1: int, m2: int, bad2: int, sel: bool, custom: bool):
     assert not healed  # twin: an update that both removes and adds view entries is reachable
 
 
+# a state point key that is itself called 'job' (the name of the links), and values that are path expressions
+UJ = [{"job": 0}, {"job": 1}, {"job": 0, "b": 1}, {"a": ".."}, {"a": "."}, {"a": "x"}]
+
+
+def h_view_names(m1: int, m2: int, sel: int):
+    assert 0 <= m1 < 64 and 0 <= m2 < 64 and 0 <= sel <= 1 and part_ok(m2)
+    assert (m1 < 8 and m2 < 8) or (m1 & 7 == 0 and m2 & 7 == 0)       # the 'job'-key family and the dot family are explored separately
+    fresh_path()
+    m1, m2, sel = ci(m1, 0, 63), ci(m2, 0, 63), ci(sel, 0, 1)
+    with nt():
+        problems = _case(m1, m2, 0, sel, False, UJ)
+    reached()
+    assert not problems
+
+
 HARNESSES = [
     dict(name="h_view", twin="h_view__reach", timeout=(900, 3000), parts=(16, 32), unblock=True),
+    dict(name="h_view_names", timeout=(300, 600), parts=(4, 4), unblock=True),
 ]
